@@ -173,7 +173,8 @@ class Bits(Mapping):
     @staticmethod
     def _get_bits(key):
         if isinstance(key, slice):
-            bits = range(key.start, key.stop, key.step)
+            # bits[2:5] has no step and bits[:5] no start
+            bits = range(key.start or 0, key.stop, key.step or 1)
         elif isinstance(key, int):
             bits = [key]
         else:
